@@ -96,3 +96,10 @@ package lexer
 //@ func lexer.dot
 //@   property C12
 //@   schema accepts 0123456789 .
+
+// the value of a string literal is the UTF-8 encoding of its runes: a rune is appended as one raw byte only when
+// it is below utf8.RuneSelf, or comes from a byte escape (\x.., octal), which denotes that byte (C12)
+//@ func lexer.unescape
+//@   property C12
+//@   assigns *
+//@   loop 0 body-ensures[one-byte-only-below-RuneSelf] len(buf) == head(len(buf)) + 1 ==> (c < 128 || !multibyte)
